@@ -79,6 +79,9 @@ func (jenny Schema) GenerateSchema(context languages.Context, schema *ast.Schema
 		definitions.Set(object.Name, jenny.objectToDefinition(object))
 	})
 
+	// foreign objects already inlined in this schema: they can refer to themselves or to each other
+	inlined := make(map[string]struct{})
+
 	for {
 		if jenny.foreignObjects.Len() == 0 {
 			break
@@ -87,7 +90,12 @@ func (jenny Schema) GenerateSchema(context languages.Context, schema *ast.Schema
 		foreignObjects := jenny.foreignObjects
 		jenny.foreignObjects = orderedmap.New[string, ast.Object]()
 
-		foreignObjects.Iterate(func(_ string, foreignObject ast.Object) {
+		foreignObjects.Iterate(func(ref string, foreignObject ast.Object) {
+			if _, found := inlined[ref]; found {
+				return
+			}
+			inlined[ref] = struct{}{}
+
 			definitions.Set(foreignObject.Name, jenny.objectToDefinition(foreignObject))
 		})
 	}
